@@ -96,6 +96,8 @@ fn main() {
         "poisson" => drivers::poisson::run(&mut ctx),
         "resv" => drivers::procs::run_resv(&mut ctx),
         "procs" => drivers::procs::run_procs(&mut ctx),
+        "harden_ros2" => drivers::harden::run_ros2(&mut ctx),
+        "agree_ros2" => drivers::agree::run_ros2(&mut ctx),
         "demand" => drivers::cost::run_demand(&mut ctx),
         d => {
             eprintln!("unknown driver {}", d);
